@@ -176,6 +176,7 @@ class Adapter:
     def __init__(self, cfg):
         self.cfg = cfg
         self.tracked = []
+        self.logger = None  # passed as ``logger=`` to every call when set (reused across continuation calls)
 
     def space(self):
         return gym.spaces.Discrete(3) if self.action == "discrete" else box_space()
@@ -194,6 +195,8 @@ class Adapter:
             kw["total_episodes"] = eps
         if self.warmup == "learning_starts":
             kw["learning_starts"] = self.cfg["learning_starts"]
+        if self.logger is not None:
+            kw["logger"] = self.logger
         return kw
 
 
@@ -536,6 +539,35 @@ class NatureDQNBackbone(NatureDQN):
 
 
 ADAPTERS = {a.name: a for a in (DQN, NatureDQN, DDQN, DDQNPER, DDPG, TD3, TD3LAP, SAC, TD7, MRQ, PETS)}
+
+
+# ------------------------------------------------------------------- loggers
+
+def make_logger(kind, pre_episodes=0):
+    """Logger object for a history: ``"memory"`` = rl_blox.logging.logger.MemoryLogger, ``"snapshot"`` = the
+    recording logger of vlib.instruments (no module snapshots), None = no logger.  ``pre_episodes`` episodes
+    (of 3 steps each) are registered before it is handed out: a logger that was already used by an earlier run."""
+    if not kind:
+        return None
+    if kind == "memory":
+        from rl_blox.logging.logger import MemoryLogger
+
+        lg = MemoryLogger()
+    elif kind == "snapshot":
+        from .instruments import make_snapshot_logger
+
+        lg = make_snapshot_logger(snapshot=False)
+    else:
+        raise KeyError(kind)
+    for _ in range(int(pre_episodes)):
+        lg.start_new_episode()
+        lg.stop_episode(3)
+    return lg
+
+
+def steps_for_episodes(script, first_episode, k):
+    """Environment steps of the next ``k`` scripted episodes starting with episode ``first_episode``."""
+    return sum(episode_length(script, first_episode + i) for i in range(int(k)))
 
 
 # ---------------------------------------------------------------- stub backbone
